@@ -35,3 +35,17 @@ Theorem c10_nonconst_copy_refuted :
   map traits_of (analyze Impl cs) <> map traits_of (analyze Cxx cs).
 Proof. exact nonconst_copy_refuted. Qed.
 Print Assumptions c10_nonconst_copy_refuted.
+
+(* a pure virtual destructor inherited by a class that declares no destructor does not make that class abstract (its implicit
+   destructor overrides it); the pinned get_pure_virtual_funcs reported such a class abstract (repaired) *)
+Theorem c10_inherited_pure_dtor_pinned_refuted :
+  exists cs i, forallb class_frag cs = true /\
+    abstract_pinned (s_vfuncs (lookup (analyze Impl cs) i)) = true /\ s_abstract (lookup (analyze Cxx cs) i) = false.
+Proof. exact inherited_pure_dtor_pinned_refuted. Qed.
+Print Assumptions c10_inherited_pure_dtor_pinned_refuted.
+
+(* the repair only removes classes from the abstract ones: whatever is abstract now has a pure entry in its list *)
+Theorem c10_abstract_has_pure_entry : forall md env c,
+  s_abstract (analyze1 md env c) = true -> abstract_pinned (s_vfuncs (analyze1 md env c)) = true.
+Proof. exact abstract_implies_pinned. Qed.
+Print Assumptions c10_abstract_has_pure_entry.
